@@ -206,7 +206,12 @@ class Attribute(_BaseAttribute):
     def __getitem__(self, key):
         if key in self._data:
             return self._data[key]
-        return self.default_value
+        dflt = self.default_value
+        if isinstance(dflt, np.ndarray):
+            # never hand out the default object itself: an in-place update of the
+            # returned vector (attr[i] += x) would change every unset entry
+            return dflt.copy()
+        return dflt
 
     def __setitem__(self, key, value):
         if self.elemsize>1:
